@@ -6,7 +6,7 @@ from __future__ import annotations
 from hypothesis import strategies as st
 
 from . import data, refsem
-from .exprgen import FAMS, Cfg, ExprGen, Scope, evaluate, lit_of
+from .exprgen import FAMS, Cfg, ExprGen, Scope, dedupe_keys, evaluate, lit_of
 from .ir import enc, walk_expr
 from .refsem import UNDEF, OutOfDomain, RefBug, RefReject
 
@@ -32,6 +32,7 @@ class PCfg:
         self.max_tables = 3
         self.join_hows = ("inner", "left", "full", "cross")
         self.nonequi = True
+        self.exclude_known = True  # avoid the shapes of open known findings by construction
         w = kw.pop("weights", None)
         self.__dict__.update(kw)
         if w:
@@ -53,6 +54,7 @@ class PipeGen:
         self.gen_rejects = 0
         self.used_tables = set()
         self.classes = set()
+        self.excluded = {}
 
     # ---- helpers ----
     def chance(self, num, den=10):
@@ -122,6 +124,12 @@ class PipeGen:
         for n, c in vis:
             if c in keep and (n, c) not in chosen:
                 chosen.append((n, c))
+        if self.cfg.exclude_known and t.agg_cols and not any(c in t.agg_cols for _, c in chosen):
+            # K03 (open finding): keep one column of an ungrouped summarize selected
+            extra = [(n, c) for n, c in vis if c in t.agg_cols]
+            if extra:
+                chosen.append(self.pick(extra))
+                self.excluded["K03"] = self.excluded.get("K03", 0) + 1
         refs = []
         for n, c in chosen:
             alts = [r for r, cc, _ in sc.vis_refs if cc == c]
@@ -134,6 +142,11 @@ class PipeGen:
         t = self.t(var)
         sc = self.scope(var)
         cands = [(n, c) for n, c in t.visible if c not in t.group]
+        if self.cfg.exclude_known and t.agg_cols:
+            vis_agg = [c for _, c in t.visible if c in t.agg_cols]
+            if len(vis_agg) >= 1:
+                protect = vis_agg[0]
+                cands = [(n, c) for n, c in cands if c != protect]
         if len(t.visible) < 2 or not cands:
             return None
         k = self.draw(st.integers(1, min(len(cands), len(t.visible) - 1)))
@@ -251,7 +264,7 @@ class PipeGen:
             keys.append([e, self.draw(st.booleans()), nulls, self.draw(st.integers(0, 2))])
         if unique:
             keys += self.unique_tail(var)
-        return keys
+        return dedupe_keys(sc, keys)
 
     def unique_tail(self, var):
         t = self.t(var)
@@ -276,7 +289,7 @@ class PipeGen:
         need = self.cfg.sql or not t.base_pl
         if need and not refsem.order_is_total(t, t.n_sql if self.cfg.sql else len(t.okeys)) or (self.cfg.sql and t.n_sql == 0):
             k = self.draw(st.integers(0, 2))
-            keys = (self.order_keys(var, k=k) if k else []) + self.unique_tail(var)
+            keys = dedupe_keys(self.scope(var), (self.order_keys(var, k=k) if k else []) + self.unique_tail(var))
             var2 = self.emit({"out": self.new_var(), "verb": "arrange", "in": var, "keys": keys})
             if var2 is None:
                 return None
@@ -388,6 +401,14 @@ class PipeGen:
             return None
         rt = self.t(rvar)
         how = self.pick(self.cfg.join_hows)
+        if self.cfg.exclude_known and how in ("left", "full"):
+            # K01 (open finding): computed columns on a null-padded side; excluded by construction
+            from .findings import side_has_computed
+
+            tmp = {"steps": self.case["steps"]}
+            if side_has_computed(tmp, rvar) or (how == "full" and side_has_computed(tmp, var)):
+                how = "inner"
+                self.excluded["K01"] = self.excluded.get("K01", 0) + 1
         lsc, rsc = self.scope(var), self.scope(rvar)
         on = []
         step = {"out": None, "verb": "join", "in": var, "right": rvar, "how": how}
@@ -396,6 +417,7 @@ class PipeGen:
             step["cross"] = True
         else:
             nconds = self.draw(st.integers(1, 2))
+            seen_conds = set()
             for _ in range(nconds):
                 fams = [f for f in FAMS if lsc.by_fam[f] and rsc.by_fam[f]]
                 if not fams:
@@ -404,7 +426,11 @@ class PipeGen:
                 # string shorthand
                 common = [n for n in t.names() if n in rt.vis() and t.fam[t.vis()[n]] == rt.fam[rt.vis()[n]]]
                 if common and self.chance(2):
-                    on.append(self.pick(common))
+                    nm = self.pick(common)
+                    key = ("eq", tuple(sorted([str(t.vis()[nm]), str(rt.vis()[nm])])))
+                    if nm not in on and not seen_conds:
+                        on.append(nm)
+                        seen_conds.add(("str", nm))
                     continue
                 l = ["col", self.pick([r for r, _ in lsc.by_fam[f] if "v" in r] or [r for r, _ in lsc.by_fam[f]])]
                 r = ["col", self.pick([r for r, _ in rsc.by_fam[f] if "v" in r] or [r for r, _ in rsc.by_fam[f]])]
@@ -421,7 +447,12 @@ class PipeGen:
                     op = self.pick(["lt", "le", "gt", "ge", "ne"]) if f != "bool" else "ne"
                     self.classes.add("nonequi_join")
                 pair = [l, r] if self.chance(7) else [r, l]
-                on.append(["fn", op, pair, {}])
+                cond = ["fn", op, pair, {}]
+                kl, kr = ("L", str(l)), ("R", str(r))
+                if kl in seen_conds or kr in seen_conds:
+                    continue  # a column twice among the join keys (Polars refuses repeated keys)
+                seen_conds |= {kl, kr}
+                on.append(cond)
             if not on:
                 step["how"] = "inner"
                 step["cross"] = True
@@ -532,5 +563,5 @@ def pipeline_case(draw, cfg: PCfg | None = None, tables=None):
     g = PipeGen(draw, cfg or PCfg(), tables)
     case = g.pipeline()
     case["_gen"] = {"skipped": g.skipped, "gen_rejects": g.gen_rejects, "classes": sorted(g.classes),
-                    "pl_only": g.env.pl_only}
+                    "pl_only": g.env.pl_only, "excluded": g.excluded}
     return case
